@@ -31,6 +31,11 @@ BR_THEN_UNQUOTE = [n for n in ('url_unquote', 'url_unquote_plus') if n in _AFTER
 CASEY = {'lower', 'upper', 'capitalize'}
 
 
+# exceptions a value pipeline stage legitimately raises on unsuitable values (then nothing is emitted); anything else - in
+# particular artefacts of symbolic execution such as SystemError from copying a TaintedString - must surface and be replayed
+BENIGN = (ValueError, TypeError, KeyError, AttributeError, IndexError, OverflowError, UnicodeError, ZeroDivisionError)
+
+
 def strip_br(out):
     return out.replace('<br />', '')
 
@@ -49,7 +54,7 @@ def make_marked(name):
     def ob(s: str) -> bool:
         try:
             r = f(TaintedString(s))
-        except Exception:
+        except BENIGN:
             return True      # no value, no output
         return isinstance(r, TaintedString)
     ob.__name__ = 'ob_marked_' + name
@@ -71,7 +76,7 @@ def make_after_br(name):
     def ob(s: str) -> bool:
         try:
             r = f(s)
-        except Exception:
+        except BENIGN:
             return True
         return lt_count(str(r)) <= lt_count(s)
     ob.__name__ = 'ob_afterbr_' + name
@@ -199,7 +204,7 @@ def make_glue(name):
             return True          # only values containing < are tainted by the publisher
         try:
             out = t(x=TaintedString(s))
-        except Exception:
+        except BENIGN:
             return True
         if not isinstance(out, str):
             out = str(out)
